@@ -21,13 +21,16 @@ EXPLANATION = (
 
 def run(tier: str) -> Check:
     check = Check("C04", tier, EXPLANATION)
-    check.rules = ["SPEC-live(T)", "K2(trivia)", "TRIVIA", "RULE-ATOM", "ATOM", "SHAPE", "TERM(no trivia)", "UNROLLED", "R1", "R2", "NAME-COLLISION"]
+    check.rules = ["SPEC-live(T)", "K2(trivia)", "TRIVIA", "RULE-ATOM", "ATOM", "SHAPE", "TERM(no trivia)", "UNROLLED", "R1", "R2", "NAME-COLLISION", "STATE-FIELD"]
     check.assumptions = [
         "trivia rules do not use the user stack",
         "which pairs pest hides under @ in every nesting needs the dynamic atomicity of the callee: only the shape-insensitivity necessary condition is decided",
         "consumption by the trivia rules themselves is covered by the operator induction, not separately",
     ]
     repo, _ = fill(check, tier, floors={"trivia_paths": 30, "rule_paths": 200, "trivia_skeleton_variants": 5, "skeleton_paths": 100})
+    from .c05 import state_fields
+
+    state_fields(check, repo)  # whether trivia is matched at a position must not depend on abandoned attempts
     from .. import gencheck
 
     gencheck.skip_namespace(check, repo)
